@@ -11,7 +11,8 @@ C04 — CRL authenticity under `verify`. Three parts:
 (ii)  decision logic, this file: the signature is accepted only under the key of an *entitled* certificate —
       a certificate above the end-entity of a presented chain or a configured trusted signer, matching the CRL's issuer
       name or authority key identifier, whose key usage (when present) permits CRL signing — for all chains, trusted
-      lists and AKI forms;
+      lists and AKI forms; the candidate search interprets the regenerated rule chain (`candRules`) and never panics
+      (`candidate_search_never_panics`), so "not accepted" is always a clean rejection (`verifyCRL_never_panics`);
 (iii) policy: under `verify` only a verified CRL comes into force, in every history (`Crv.Props.C16.verify_in_force_was_verified`).
 (iv)  the *unsigned envelope* of an accepted CRL is pinned down, for every byte string and every oracle (end of this file):
       the outer signatureAlgorithm is byte-identical to the signed inner `signature` field, the outer length is honest,
@@ -46,29 +47,48 @@ theorem available_origin (verified : List (List CertA)) (trusted : List CertA) (
     · cases hal
   · left; rfl
 
+/-- The interpreted rule chain, with the regenerated `candRules` / `candNoRuleIsError`, spelled out for an AKI that is present:
+issuer+serial when the AKI has a serial, else key identifier, else an error. No case yields `.panic`. -/
+theorem findCandidates_some (crlIssuer : Nat) (a : AKI) (alg : KeyAlg) (av : List Avail) :
+    findCandidates crlIssuer (some a) alg av =
+      match a.certSerial with
+      | some s => .ok (av.filter fun x => x.cert.serial == s && issuerMatches a x)
+      | none =>
+        match a.keyId with
+        | some k => .ok (av.filter fun x => x.cert.ski == some k)
+        | none => .err := by
+  cases hs : a.certSerial <;> cases hk : a.keyId <;>
+    simp [findCandidates, findCandidatesWith, candRules, candNoRuleIsError, interpRules, runRule, fieldPresent,
+      serialIssuerRule, keyIdRule, hs, hk]
+
+theorem findCandidates_none (crlIssuer : Nat) (alg : KeyAlg) (av : List Avail) :
+    findCandidates crlIssuer none alg av = .ok (av.filter fun a => a.cert.subject == crlIssuer && a.cert.keyAlg == alg) := rfl
+
 theorem candidates_match (crlIssuer : Nat) (aki : Option AKI) (alg : KeyAlg) (av l : List Avail)
     (h : findCandidates crlIssuer aki alg av = .ok l) (a : Avail) (ha : a ∈ l) :
     a ∈ av ∧ matchesCRL crlIssuer aki a.cert := by
-  unfold findCandidates at h
   cases aki with
   | none =>
+    rw [findCandidates_none] at h
     simp only [CandRes.ok.injEq] at h
     subst h
     simp only [List.mem_filter, Bool.and_eq_true, beq_iff_eq] at ha
     exact ⟨ha.1, Or.inl ha.2.1⟩
   | some k =>
-    simp only at h
+    rw [findCandidates_some] at h
     cases hs : k.certSerial with
     | some s =>
       simp only [hs, CandRes.ok.injEq] at h
       subst h
       simp only [List.mem_filter, Bool.and_eq_true, beq_iff_eq] at ha
       refine ⟨ha.1, Or.inr ⟨k, rfl, Or.inr ?_⟩⟩
+      have hi := ha.2.2
+      unfold issuerMatches at hi
       cases hn : k.certIssuer with
-      | none => simp [hn] at ha
+      | none => simp [hn] at hi
       | some n =>
-        simp only [hn, beq_iff_eq] at ha
-        exact ⟨s, n, hs, rfl, ha.2.1, ha.2.2⟩
+        simp only [hn, beq_iff_eq] at hi
+        exact ⟨s, n, hs, rfl, ha.2.1, hi⟩
     | none =>
       simp only [hs] at h
       cases hk : k.keyId with
@@ -78,6 +98,63 @@ theorem candidates_match (crlIssuer : Nat) (aki : Option AKI) (alg : KeyAlg) (av
         subst h
         simp only [List.mem_filter, beq_iff_eq] at ha
         exact ⟨ha.1, Or.inr ⟨k, rfl, Or.inl ⟨kid, hk, ha.2⟩⟩⟩
+
+/-- **The candidate search never panics**, whatever the CRL issuer, AKI form, key algorithm and available certificates.
+This rests on the regenerated rule chain: the issuer+serial rule — whose loop compares every available certificate's serial
+with `AuthorityCertSerialNumber` — is guarded by "serial present". With a guard that does not require the serial the search
+panics (`unguarded_serial_rule_panics`). -/
+theorem candidate_search_never_panics (crlIssuer : Nat) (aki : Option AKI) (alg : KeyAlg) (av : List Avail) :
+    findCandidates crlIssuer aki alg av ≠ .panic := by
+  cases aki with
+  | none => rw [findCandidates_none]; exact CandRes.noConfusion
+  | some a =>
+    rw [findCandidates_some]
+    cases a.certSerial with
+    | some s => exact CandRes.noConfusion
+    | none =>
+      cases a.keyId with
+      | some k => exact CandRes.noConfusion
+      | none => exact CandRes.noConfusion
+
+/-- Sensitivity of `candidate_search_never_panics` to the rule guards: were the issuer+serial rule guarded by the issuer
+instead of the serial, an AKI with an issuer but no serial would panic as soon as one certificate is available
+(`SerialNumber.Cmp(nil)` on the first candidate). -/
+theorem unguarded_serial_rule_panics (crlIssuer : Nat) (kid : Option Nat) (n : Nat) (alg : KeyAlg) (av : List Avail)
+    (hav : av ≠ []) :
+    findCandidatesWith [("serial+issuer", ["issuer"]), ("keyid", ["keyid"])] true crlIssuer (some ⟨kid, none, some n⟩) alg av
+      = .panic := by
+  cases av with
+  | nil => exact absurd rfl hav
+  | cons x t => simp [findCandidatesWith, interpRules, runRule, fieldPresent, serialIssuerRule]
+
+/-- With nothing available the unguarded rule's loop body never runs: no panic, no candidates. -/
+theorem unguarded_serial_rule_no_certificate (crlIssuer : Nat) (kid : Option Nat) (n : Nat) (alg : KeyAlg) :
+    findCandidatesWith [("serial+issuer", ["issuer"]), ("keyid", ["keyid"])] true crlIssuer (some ⟨kid, none, some n⟩) alg []
+      = .ok [] := by
+  simp [findCandidatesWith, interpRules, runRule, fieldPresent, serialIssuerRule]
+
+/-- The rule chain as regenerated from `FindCertificateIssuerCandidates`: issuer+serial guarded by the serial, then key
+identifier guarded by the key identifier, and no rule is an error. -/
+theorem cand_rules_canonical :
+    candRules = [("serial+issuer", ["serial"]), ("keyid", ["keyid"])] ∧ candNoRuleIsError = true := ⟨rfl, rfl⟩
+
+/-- An AKI that carries neither a serial nor a key identifier is an error, whatever its issuer field is. -/
+theorem aki_without_serial_and_keyid_is_error (crlIssuer : Nat) (a : AKI) (alg : KeyAlg) (av : List Avail)
+    (hs : a.certSerial = none) (hk : a.keyId = none) :
+    findCandidates crlIssuer (some a) alg av = .err := by
+  rw [findCandidates_some]
+  simp only [hs, hk]
+
+/-- The issuer+serial rule comes first: an AKI with a serial selects exactly the certificates with that serial whose issuer
+name is the AKI's (present) issuer, whether or not the AKI also carries a key identifier. -/
+theorem serial_rule_first (crlIssuer : Nat) (a : AKI) (s : Int) (alg : KeyAlg) (av : List Avail)
+    (hs : a.certSerial = some s) :
+    findCandidates crlIssuer (some a) alg av =
+      .ok (av.filter fun x => x.cert.serial == s &&
+        (match a.certIssuer with | some n => x.cert.issuerName == n | none => false)) := by
+  rw [findCandidates_some]
+  simp only [hs]
+  rfl
 
 theorem firstVerifying_spec (sigOK : Nat → Bool) (l : List Avail) (a : Avail) (h : firstVerifying sigOK l = some a) :
     a ∈ l ∧ sigOK a.cert.key = true ∧ (a.cert.keyUsage = none ∨ a.cert.keyUsage = some true) := by
@@ -108,21 +185,45 @@ theorem firstVerifying_spec (sigOK : Nat → Bool) (l : List Avail) (a : Avail) 
 All chains, all trusted lists, all AKI forms, every behaviour of the signature primitive. -/
 theorem accepted_signer_entitled (sigOK : Nat → Bool) (crlIssuer : Nat) (aki : Option AKI) (alg : KeyAlg)
     (verified : List (List CertA)) (trusted : List CertA) (a : Avail)
-    (h : verifyCRL sigOK crlIssuer aki alg verified trusted = some a) :
+    (h : verifyCRL sigOK crlIssuer aki alg verified trusted = .accepted a) :
     Entitled crlIssuer aki a ∧ sigOK a.cert.key = true := by
   unfold verifyCRL at h
   cases hc : findCandidates crlIssuer aki alg (available verified trusted) with
   | err => simp [hc] at h
+  | panic => simp [hc] at h
   | ok l =>
     simp only [hc] at h
-    obtain ⟨hmem, hsig, hku⟩ := firstVerifying_spec sigOK l a h
-    obtain ⟨hav, hmatch⟩ := candidates_match crlIssuer aki alg _ l hc a hmem
-    exact ⟨⟨available_origin verified trusted a hav, hmatch, hku⟩, hsig⟩
+    cases hf : firstVerifying sigOK l with
+    | none => simp [hf] at h
+    | some b =>
+      simp only [hf, VerifyRes.accepted.injEq] at h
+      subst h
+      obtain ⟨hmem, hsig, hku⟩ := firstVerifying_spec sigOK l b hf
+      obtain ⟨hav, hmatch⟩ := candidates_match crlIssuer aki alg _ l hc b hmem
+      exact ⟨⟨available_origin verified trusted b hav, hmatch, hku⟩, hsig⟩
+
+/-- `verifyCRL` reports a panic exactly when the candidate search panics (it is not folded into a rejection). -/
+theorem verifyCRL_panic_iff (sigOK : Nat → Bool) (crlIssuer : Nat) (aki : Option AKI) (alg : KeyAlg)
+    (verified : List (List CertA)) (trusted : List CertA) :
+    verifyCRL sigOK crlIssuer aki alg verified trusted = .panic ↔
+      findCandidates crlIssuer aki alg (available verified trusted) = .panic := by
+  unfold verifyCRL
+  cases hc : findCandidates crlIssuer aki alg (available verified trusted) with
+  | err => simp
+  | panic => simp
+  | ok l => cases hf : firstVerifying sigOK l <;> simp [hf]
+
+/-- Signature verification of a CRL never panics in the candidate search (`candidate_search_never_panics`). -/
+theorem verifyCRL_never_panics (sigOK : Nat → Bool) (crlIssuer : Nat) (aki : Option AKI) (alg : KeyAlg)
+    (verified : List (List CertA)) (trusted : List CertA) :
+    verifyCRL sigOK crlIssuer aki alg verified trusted ≠ .panic := by
+  rw [Ne, verifyCRL_panic_iff]
+  exact candidate_search_never_panics crlIssuer aki alg _
 
 /-- Signing with the client certificate's own key (or any key whose only certificate sits at position 0) is never accepted. -/
 theorem end_entity_key_never_accepted (sigOK : Nat → Bool) (crlIssuer : Nat) (aki : Option AKI) (alg : KeyAlg)
     (verified : List (List CertA)) (trusted : List CertA) (a : Avail)
-    (h : verifyCRL sigOK crlIssuer aki alg verified trusted = some a) : a.origin ≠ .chain 0 := by
+    (h : verifyCRL sigOK crlIssuer aki alg verified trusted = .accepted a) : a.origin ≠ .chain 0 := by
   have := (accepted_signer_entitled sigOK crlIssuer aki alg verified trusted a h).1.1
   intro h0
   rcases this with ht | ⟨p, hp, hge⟩
@@ -132,10 +233,11 @@ theorem end_entity_key_never_accepted (sigOK : Nat → Bool) (crlIssuer : Nat) (
 /-- If no available key verifies the signature (unrelated key, tampered content or signature), nothing is accepted. -/
 theorem nothing_verifies_nothing_accepted (crlIssuer : Nat) (aki : Option AKI) (alg : KeyAlg)
     (verified : List (List CertA)) (trusted : List CertA) :
-    verifyCRL (fun _ => false) crlIssuer aki alg verified trusted = none := by
+    verifyCRL (fun _ => false) crlIssuer aki alg verified trusted = .rejected := by
   cases h : verifyCRL (fun _ => false) crlIssuer aki alg verified trusted with
-  | none => rfl
-  | some a => have := (accepted_signer_entitled _ crlIssuer aki alg verified trusted a h).2; cases this
+  | rejected => rfl
+  | panic => exact absurd h (verifyCRL_never_panics _ crlIssuer aki alg verified trusted)
+  | accepted a => have := (accepted_signer_entitled _ crlIssuer aki alg verified trusted a h).2; cases this
 
 /-- An algorithm identifier outside the table (RSA-PSS, Ed25519, …) stops the reader before tbsCertList is interpreted. -/
 theorem unsupported_algorithm_rejected (oid : List Nat) (h : lookupHash oid = none) (r : Rd) :
@@ -342,8 +444,12 @@ example : (match peekLen 1 { rest := [0x30, 0x91, 1, 0] } with | .err .lenForm _
 -- Non-vacuity: issuer CA (key 1) above the end-entity (key 5): a CRL signed by key 5 is refused, by key 1 accepted.
 def leaf : CertA := ⟨5, 100, 7, 42, some 9, .ecdsa, none⟩
 def ca : CertA := ⟨1, 7, 7, 1, some 9, .ecdsa, some true⟩
-example : verifyCRL (fun k => k == 5) 7 (some ⟨some 9, none, none⟩) .ecdsa [[leaf, ca]] [] = none := by decide
-example : verifyCRL (fun k => k == 1) 7 (some ⟨some 9, none, none⟩) .ecdsa [[leaf, ca]] [] = some ⟨ca, .chain 1⟩ := by decide
+example : verifyCRL (fun k => k == 5) 7 (some ⟨some 9, none, none⟩) .ecdsa [[leaf, ca]] [] = .rejected := by decide
+example : verifyCRL (fun k => k == 1) 7 (some ⟨some 9, none, none⟩) .ecdsa [[leaf, ca]] [] = .accepted ⟨ca, .chain 1⟩ := by decide
+-- An AKI with only an issuer: the search ends in its error (not a panic), the CRL is rejected; serial+issuer selects the CA.
+example : findCandidates 7 (some ⟨none, none, some 7⟩) .ecdsa (available [[leaf, ca]] []) = .err := by decide
+example : verifyCRL (fun k => k == 1) 7 (some ⟨none, none, some 7⟩) .ecdsa [[leaf, ca]] [] = .rejected := by decide
+example : verifyCRL (fun k => k == 1) 7 (some ⟨some 3, some 1, some 7⟩) .ecdsa [[leaf, ca]] [] = .accepted ⟨ca, .chain 1⟩ := by decide
 
 /-- The hand-written `Reader` model this property rests on was transcribed from exactly these sources: the fingerprints are
 recomputed from /repo on every run (tools/extract/skeleton.go), so any change to one of the functions breaks this obligation. -/
